@@ -43,3 +43,12 @@ CLAIMS["C19"] = (
     "Trusts os.replace/Path.replace atomicity on POSIX; does not execute a kill, does not decide fsync durability or key->filename injectivity.",
     "DESIGN.md section 4 C19",
 )
+CLAIMS["C10"] = (
+    "must-depend dataflow (path-enumerating, with control dependence) on the normaliser, symbolic execution of its row-window arithmetic (sympy), and dominance/shape checks of segment binding, stacking, sign selection and the lazy filler",
+    "Decides for every result and every argument shape: (V1) each branch of the normaliser returns a value that depends on the data and the factors, and the per-row branch walks consecutive windows for symbolic segment lengths; "
+    "(V2) every model evaluation inside Simulation is preceded by update_parameters of that segment's own parameter record; (V3) concatenated views are pd.concat(list, axis=0) in order; "
+    "(V4) producers/consumers select strictly positive/negative coefficients and scale by (minus) the coefficient; (V5) views go through one fill-at-most-once filler with one table per segment. "
+    "These are the structural halves of 'values under the segment's parameters', 'concat = stack' and 'normalisation divides by what was supplied'; the numerical identities are not decided.",
+    "Trusts pandas broadcasting in the divisions and that Model.update_parameters invalidates the model cache (C03).",
+    "DESIGN.md section 4 C10",
+)
